@@ -21,12 +21,14 @@ RULE = ('sources with 1-4 hostile quoted atoms (quotes of both kinds, line break
         'arguments, list elements, functor names, nested compound terms and as clause-head names (must be rejected); variables named like '
         'Python constants / engine API / generated locals; random programs with exotic atoms; clause-head names and atoms that are ASCII identifiers '
         'but for one or two characters of nine computed classes (case mapping / re.IGNORECASE / normal form is or starts with an ASCII identifier '
-        'character, identifier-legal and renamed by NFKC, decimal digits, identifier start / continue), the small classes enumerated completely. Compared: verdict and text with the Coq model '
+        'character, identifier-legal and renamed by NFKC, decimal digits, identifier start / continue), the small classes enumerated completely; atoms of 1-8 kB with escaped '
+        'characters exactly at and around multiples of 250..8192 (offset in the text, its repr, its UTF-8 bytes, its Prolog spelling) followed by Python text; atoms that spell '
+        'encoding declarations (every codec name of the interpreter) and shift sequences of stateful codecs. Compared: verdict and text with the Coq model '
         'compile_text. Oracle on the real output: token classes (fixed vocabulary, V_ identifiers, argN/lN/cutIfN, canonical decimals, '
         'one-line string literals, def names = head keys), ast node-type whitelist, loaded names = API whitelist or locals, calls only to '
         'the 7 API functions, string constants = the atoms of the source in order, int constants = the numerals, loading adds only head '
         'keys, defines every head key and rebinds no API name, __builtins__ of the exec globals is empty, hostile queries have no answers / no exception / no '
-        'side effect. Non-trivial: an accepted source containing an atom whose repr is not quote+text+quote, or a rejected head name.')
+        'side effect; the output (plain, all debug options, and as written by the command line for the debug-flag combinations) loaded through load_script_from_file defines exactly the head keys and answers what the text loaded from a string answers. Non-trivial: an accepted source containing an atom whose repr is not quote+text+quote, or a rejected head name.')
 TRUSTED_BASE = []
 CASE_TIMEOUT = 30
 COQ_CHUNK = 20
@@ -206,7 +208,7 @@ def coding_case(rng):
 def gen(rng, tier):
     quick = tier == 'quick'
     cases = []
-    for _ in range(36 if quick else 500):
+    for _ in range(36 if quick else 300):
         # one long atom (quick: up to ~4.3 kB, now and then 8.3 kB; thorough: up to 8.3 kB) and short ones in the other places
         a = long_atom(rng, 4300 if quick and rng.random() < 0.9 else 8300)
         pos = rng.choice(POSITIONS[:17])
@@ -591,8 +593,10 @@ def _file_problems(case, source, text, dtext, keys):
         if yp.eval_context.get('__builtins__') != {}:
             probs.append('%s, loaded from the file: __builtins__ is not empty' % what)
         a = _answers(yp, keys)
-        if a != ref_answers:
-            k = next(k for k in ref_answers if a.get(k) != ref_answers[k])
+        # a RecursionError of the host interpreter depends on the depth of the caller's stack: not compared
+        differ = [k for k in ref_answers if a.get(k) != ref_answers[k] and 'RecursionError' not in ref_answers[k] and 'RecursionError' not in (a.get(k) or [])]
+        if differ:
+            k = differ[0]
             probs.append(('%s, loaded from the file: %s answers %r, loaded from a string %r' % (what, k, a.get(k), ref_answers[k]))[:600])
         if os.environ.get(CANARY):
             probs.append('%s, loaded from the file: the canary was set' % what)
